@@ -1,5 +1,6 @@
 (** Model of deepdiff/lfucache.py (LFUCache with plain values: the only form
-    deepdiff itself uses, [set(key, value=v)]).
+    deepdiff itself uses, [set(key, value=v)]; the report_type form is layered
+    on top in LfuRt.v).
 
     The two doubly linked lists (frequency nodes, cache nodes under each) are
     represented by their abstract content: an ascending list of buckets, each a
@@ -9,7 +10,15 @@ From Coq Require Import List ZArith Bool Arith.
 Import ListNotations.
 
 Definition key := Z.
-Definition val := Z.
+
+(* The cache never inspects the stored content: everything below is generic in
+   its type [val] (implicit argument after the section).  The correspondence
+   check and LfuShow.v instantiate it with Z; LfuRt.v with the content type of
+   the report_type form of [set]. *)
+Set Implicit Arguments.
+Set Maximal Implicit Insertion.
+Section Gen.
+Variable val : Type.
 
 Record bucket := mkB { freq : nat; items : list (key * val) }.
 Record lfu := mkL { cap : nat; buckets : list bucket }.   (* head = freq_link_head *)
@@ -126,3 +135,8 @@ Fixpoint run (s : lfu) (ops : list op) : lfu * list (option val) :=
   end.
 
 Definition state_of (c : nat) (ops : list op) : lfu := fst (run (empty c) ops).
+
+End Gen.
+Arguments empty {val} c.
+Arguments OGet {val} k.
+Arguments state_of {val} c ops.
